@@ -760,16 +760,30 @@ func c05Run(c core.Case) core.Result {
 		return core.Skipped(why)
 	}
 	src := "{{ " + term.print() + " }}"
+	wantStr := want.str()
+	switch c.Fam {
+	case "termw":
+		// state carried within one execution: the same expression after a warm-up print that has already
+		// called a function and a filter with three arguments each
+		src = "{{ r(7, 8, 9)|g(6, 5, 4) }}|" + src
+		ref.log = append([]string{"r(7;8;9)", "g(7;6;5;4)"}, ref.log...)
+		wantStr = "7|" + wantStr
+	case "terml":
+		// ... and evaluated in two consecutive loop iterations
+		src = "{% for i in [1, 2] %}" + src + ";{% endfor %}"
+		ref.log = append(append([]string{}, ref.log...), ref.log...)
+		wantStr = wantStr + ";" + wantStr + ";"
+	}
 	var log []string
 	out, err, pan := tryExec(c05Env(&log), src, c05Ctx_)
 	if pan != "" {
 		return core.Violation("panic", src+" panicked: "+pan)
 	}
 	if err != nil {
-		return core.Violation("error", fmt.Sprintf("%s fails: %v (the documented value is %q)", src, err, want.str()))
+		return core.Violation("error", fmt.Sprintf("%s fails: %v (the documented value is %q)", src, err, wantStr))
 	}
-	if out != want.str() {
-		return core.Violation("value", fmt.Sprintf("%s renders %q, the documented value is %q", src, out, want.str()))
+	if out != wantStr {
+		return core.Violation("value", fmt.Sprintf("%s renders %q, the documented value is %q", src, out, wantStr))
 	}
 	if strings.Join(log, " ") != strings.Join(ref.log, " ") {
 		return core.Violation("callbacks", fmt.Sprintf("%s invoked callbacks %q, want %q (each once, evaluated arguments, source order)", src, log, ref.log))
@@ -851,7 +865,12 @@ func c05Levels(tier string) []core.Level {
 				}
 			}
 		}},
-		{Name: "callbacks: f(e1..en), e|g(e1..en), e is t(e1..en) for n <= 3 with arguments that are literals, recording calls, filtered recording calls or filters with their own (recording) arguments; inside operators, arrays, conditionals", Gen: func(emit func(core.Case)) {
+		{Name: "callbacks: f(e1..en), e|g(e1..en), e is t(e1..en) for n <= 3 (each alone, after a warm-up print with 3-argument calls, and in two loop iterations) with arguments that are literals, recording calls, filtered recording calls or filters with their own (recording) arguments; inside operators, arrays, conditionals", Gen: func(emit0 func(core.Case)) {
+			emit := func(c core.Case) {
+				emit0(c)
+				emit0(core.Case{Fam: "termw", N: c.N})
+				emit0(core.Case{Fam: "terml", N: c.N})
+			}
 			// argument shapes: literal i; r(i); r(i)|g
 			arg := func(shape, i int) []int {
 				lit := []int{0, 2 * i} // operand literal i (0,1,2,3)
@@ -945,7 +964,7 @@ func init() {
 		ID:       "C05",
 		Category: "exploration",
 		Rule: "expression terms over 20 operand values (0 1 2 3 7 -1 0.5 2.25 '' 'a' 'ab' 'b' '3' true false null [1,2] ['a'] [] {'k':1}), each as a literal and as a variable bound to a Go value of varying numeric type: every operand alone, under every unary operator and in array / hash literal and .k / [k] / .0 access forms; every binary operator over every operand pair; the conditional over 8^3 operands; interpolation with 0-2 holes; depth 2 over 12 operators x 8 operands in both shapes, depth 3 over 6 operators x 5 operands in three shapes; " +
-			"callback expressions f(e..), e|g(e..), e is t(e..) with <= 3 arguments that are literals, recording calls or filtered recording calls, also inside operators, arrays, conditionals and interpolation. " +
+			"callback expressions f(e..), e|g(e..), e is t(e..) with <= 3 arguments that are literals, recording calls or filtered recording calls, also inside operators, arrays, conditionals and interpolation; every callback expression is evaluated alone, after a warm-up print that already called a function and a filter with three arguments, and in two consecutive loop iterations (state carried inside one execution). " +
 			"Oracle: a reference evaluator defined only where stick's documented coercions and Twig agree (other cases skipped by reason); rendered value and recorded call log (name, evaluated arguments, order, exactly once) must match. distinct = distinct term; non-trivial = inside the comparison region",
 		Assumptions: []string{
 			"comparison region as in DESIGN.md appendix A; array results are observed through a joining harness filter",
